@@ -46,10 +46,13 @@ var poolSrc = []string{
 	`18446744073709551616`, `-9223372036854775808`, `1606938044258990275541962092341162602522202993782792835301376`,
 	`0.5`, `-0.0`, `1e308`, `-1e308`, `nan`, `infinite`, `-infinite`, `1.5`, `1e11`, `1e18`,
 	`""`, `"a"`, `("a" * 8192)`, `"a\u0000b"`, `"å中😀"`, `"mp3"`, `"."`, `"f"`, `"[1,2"`,
-	`([255,254,0] | tobytes)`, `([1,2,3] | tobits)`, `([1,2,3,4] | tobits[3:17])`, `([] | tobytes)`,
+	`([255,254,0] | tobytes)`, `([1,2,3] | tobits)`,
+	// deeply nested, truncated documents: recursive decoders fail hundreds of frames deep
+	`([range(300) | 0x81] | tobytes)`, `([range(300) | 0x91] | tobytes)`, `("l" * 2000)`, `("[" * 2000)`, `("<a>" * 500)`, `([1,2,3,4] | tobits[3:17])`, `([] | tobytes)`,
 	`[]`, `[1,[2,[3]]]`, `[[]]`, `["a",1,null]`, `[256]`, `[-1]`,
 	`{}`, `{"a":{"b":[1]}}`, `{"":1}`, `{"":{"":[{"":1}]}, "#text": "t", "-a": "v"}`,
 	`("[1,{\"a\":2}]" | json)`, `("[1,{\"a\":2}]" | json | .[1])`,
+	`("null" | json)`, `("-1.5" | json)`, `("\"s\"" | json)`, `("true" | json)`, `("{}" | json)`, `("[]" | json)`,
 	`([0x83,0xa1,97,1,0xa1,98,0x92,0xcb,0x3f,0xf0,0,0,0,0,0,0,0xc0,0xa1,99,0xc4,2,0xde,0xad] | tobytes | msgpack)`,
 	`([0x83,0xa1,97,1,0xa1,98,0x92,0xcb,0x3f,0xf0,0,0,0,0,0,0,0xc0,0xa1,99,0xc4,2,0xde,0xad] | tobytes | msgpack | .pairs[0].key)`,
 	`("f" | open)`,
